@@ -138,28 +138,42 @@ def text_len(cfg):
 
 
 def ctor(cfg):
+    # strategies are built once here: constructing them inside the composite costs ~30 ms per draw
+    tl = text_len(cfg)
+    tx = {n: texts(n, n, esc=cfg.esc, nonascii=cfg.nonascii, alphabet=cfg.alphabet) for n in range(cfg.min_text, cfg.max_text + 1)}
+    kinds = ['ranges'] * 6 + ['fmt'] if cfg.rich else ['plain', 'fmt', 'ranges', 'ranges', 'ranges', 'ranges']
+    kind_s = st.sampled_from(kinds + (['ansi'] if cfg.ansi_ctor else []))
+    sp = specs(cfg)
+    sp12 = specs(cfg, 1, 2)
+    at = ansi_text(cfg)
+    nr = st.integers(2 if cfg.rich else 1, 5 if cfg.rich else 4)
+    d10 = st.integers(0, 9)
+    d6 = st.integers(0, 5)
+    ix = idx(cfg.far)
+    top = st.sampled_from([True, True, True, False])
+    d3 = st.integers(0, 2)
+
     @st.composite
     def c(draw):
-        n = draw(text_len(cfg))
-        t = draw(texts(n, n, esc=cfg.esc, nonascii=cfg.nonascii, alphabet=cfg.alphabet))
-        kinds = ['ranges'] * 6 + ['fmt'] if cfg.rich else ['plain', 'fmt', 'ranges', 'ranges', 'ranges', 'ranges']
-        kind = draw(st.sampled_from(kinds + (['ansi'] if cfg.ansi_ctor else [])))
+        n = draw(tl)
+        t = draw(tx[n])
+        kind = draw(kind_s)
         if kind == 'plain':
             return {'k': 'plain', 't': t}
         if kind == 'fmt':
-            return {'k': 'fmt', 't': t, 's': draw(specs(cfg))}
+            return {'k': 'fmt', 't': t, 's': draw(sp)}
         if kind == 'ansi':
-            return {'k': 'ansi', 't': draw(ansi_text(cfg))}
+            return {'k': 'ansi', 't': draw(at)}
         rs = []
-        for _ in range(draw(st.integers(2 if cfg.rich else 1, 5 if cfg.rich else 4))):
-            if n > 0 and draw(st.integers(0, 9)) < 8:
+        for _ in range(draw(nr)):
+            if n > 0 and draw(d10) < 8:
                 a = draw(st.integers(0, n - 1))
-                b = draw(st.one_of(st.integers(a + 1, n), st.integers(a + 1, n), st.none()))
-                if draw(st.integers(0, 5)) == 0:
+                b = None if draw(d3) == 0 else draw(st.integers(a + 1, n))
+                if draw(d6) == 0:
                     a, b = a - n, (b - n if b is not None and b < n else None)
             else:
-                a, b = draw(idx(cfg.far)), draw(idx(cfg.far))
-            rs.append({'s': draw(specs(cfg, 1, 2)), 'a': a, 'b': b, 'top': draw(st.sampled_from([True, True, True, False]))})
+                a, b = draw(ix), draw(ix)
+            rs.append({'s': draw(sp12), 'a': a, 'b': b, 'top': draw(top)})
         return {'k': 'ranges', 't': t, 'r': rs}
     return c()
 
